@@ -25,6 +25,9 @@ use std::time::{Duration, Instant};
 pub enum Op {
     HttpRegister { svc: u8, addr: u8, node: u8, weight: u8 },
     HttpDeregister { svc: u8, addr: u8, node: u8 },
+    /// the HTTP client of this address dies: no deregistration, its heartbeats just stop (the instance has to be timed
+    /// out by whichever node is responsible for it by then)
+    HttpAbandon { svc: u8, addr: u8 },
     GrpcConnect { conn: u8, node: u8 },
     GrpcRegister { conn: u8, svc: u8, addr: u8 },
     GrpcDeregister { conn: u8, svc: u8, addr: u8 },
@@ -49,6 +52,7 @@ fn op_strategy(with_kill: bool) -> BoxedStrategy<Op> {
     let mut v: Vec<(u32, BoxedStrategy<Op>)> = vec![
         (8, (0u8..3, 0u8..6, 0u8..3, 2u8..5).prop_map(|(svc, addr, node, weight)| Op::HttpRegister { svc, addr, node, weight }).boxed()),
         (3, (0u8..3, 0u8..6, 0u8..3).prop_map(|(svc, addr, node)| Op::HttpDeregister { svc, addr, node }).boxed()),
+        (2, (0u8..3, 0u8..6).prop_map(|(svc, addr)| Op::HttpAbandon { svc, addr }).boxed()),
         (3, (0u8..3, 0u8..3).prop_map(|(conn, node)| Op::GrpcConnect { conn, node }).boxed()),
         (6, (0u8..3, 0u8..3, 6u8..12).prop_map(|(conn, svc, addr)| Op::GrpcRegister { conn, svc, addr }).boxed()),
         (1, (0u8..3, 0u8..3, 6u8..12).prop_map(|(conn, svc, addr)| Op::GrpcDeregister { conn, svc, addr }).boxed()),
@@ -73,6 +77,26 @@ pub fn case_strategy_quick_restart() -> BoxedStrategy<Case> {
             }
             a.push(Op::Pause { ms: 1200 });
             a.push(Op::KillRestartQuick { node });
+            a.extend(b);
+            Case { ops: a }
+        })
+        .boxed()
+}
+
+/// HTTP clients die (heartbeats stop without a deregistration); while their instances are unhealthy but not yet removed
+/// the node `node` is killed: whatever it was responsible for has to be timed out by the survivors
+pub fn case_strategy_abandon_kill() -> BoxedStrategy<Case> {
+    (prop::collection::vec((0u8..6, 0u8..3, 2u8..5), 3), 17_000u16..27_000, 0u8..3, prop::collection::vec(op_strategy(false), 0..6), prop::collection::vec(op_strategy(false), 2..10))
+        .prop_map(|(regs, wait, node, mut a, b)| {
+            for (s, (addr, nd, weight)) in regs.iter().enumerate() {
+                a.push(Op::HttpRegister { svc: s as u8, addr: *addr, node: *nd, weight: *weight });
+            }
+            a.push(Op::Pause { ms: 1500 });
+            for (s, (addr, _, _)) in regs.iter().enumerate() {
+                a.push(Op::HttpAbandon { svc: s as u8, addr: *addr });
+            }
+            a.push(Op::Pause { ms: wait });
+            a.push(Op::Kill { node });
             a.extend(b);
             Case { ops: a }
         })
@@ -439,6 +463,14 @@ fn run_case_inner(case: &Case, c: &mut Cluster) -> CaseReport {
                     }
                 }
             }
+            Op::HttpAbandon { svc, addr } => {
+                let s = *svc as usize % 3;
+                if matches!(model.get(&(s, *addr)), Some((Owner::Http, _))) {
+                    hb_set.lock().unwrap().remove(&(s, *addr));
+                    model.remove(&(s, *addr));
+                    labels.insert("http_client_abandoned_its_instance".into());
+                }
+            }
             Op::Flap { svc, addr, node, weight, end_registered } => {
                 let nd = *node as usize % 3;
                 if down == Some(nd) {
@@ -737,7 +769,7 @@ pub fn main(ctx: &Ctx) -> i32 {
     let work = work_dir(ctx);
     let fin = || Finish {
         level: "exploration",
-        rule: "schedules (10..36 ops) on real 3-node clusters: HTTP register (explicit weights 2..4; weight 1 means 'not given' to the handler) / deregister addressed to generated nodes over 3 services x 6 addresses, gRPC register / deregister of 6 further addresses through up to three held bi-stream connections attached to generated nodes, connection close, pauses, back-to-back update+deregister / deregister+register of one address (inside one sync batch), and (second class) kill -9 / restart of one node, (third class) kill -9 of a node that holds gRPC registrations followed by its immediate restart (inside the 15 s after which its peers would declare it dead) with no gRPC client connecting to it afterwards; HTTP heartbeats are kept going every 2 s for HTTP instances the model holds. Oracle: within 100 s after the last op (1) all live nodes return the same set (ip, port, healthy, enabled, weight) for every service and (2) that set is exactly the model's surviving registrations, healthy and enabled - instances of connections attached to a killed node, of closed connections and deregistered ones are gone, everything else present; weights are compared with the model only in schedules without a kill (after a kill a heartbeat may re-create an instance on the new responsible node and the server takes no weight from a beat). Saved replays are re-run first. non-trivial = one address written through two different nodes, or a node killed while holding gRPC registrations; distinct = hash of the schedule".into(),
+        rule: "schedules (10..36 ops) on real 3-node clusters: HTTP register (explicit weights 2..4; weight 1 means 'not given' to the handler) / deregister addressed to generated nodes over 3 services x 6 addresses, gRPC register / deregister of 6 further addresses through up to three held bi-stream connections attached to generated nodes, connection close, pauses, back-to-back update+deregister / deregister+register of one address (inside one sync batch), and (second class) kill -9 / restart of one node, (third class) kill -9 of a node that holds gRPC registrations followed by its immediate restart (inside the 15 s after which its peers would declare it dead) with no gRPC client connecting to it afterwards, (fourth class) HTTP clients that die without deregistering (heartbeats just stop) followed 17..27 s later - the instances are unhealthy but not yet removed - by kill -9 of a node; HTTP heartbeats are kept going every 2 s for HTTP instances the model holds. Oracle: within 100 s after the last op (1) all live nodes return the same set (ip, port, healthy, enabled, weight) for every service and (2) that set is exactly the model's surviving registrations, healthy and enabled - instances of connections attached to a killed node, of closed connections and deregistered ones are gone, everything else present; weights are compared with the model only in schedules without a kill (after a kill a heartbeat may re-create an instance on the new responsible node and the server takes no weight from a beat). Saved replays are re-run first. non-trivial = one address written through two different nodes, or a node killed while holding gRPC registrations; distinct = hash of the schedule".into(),
         assumptions: vec![
             "message schedules between the nodes are sampled by real execution, not controlled ('delayed batch overtaking a remove' is reachable only by luck)".into(),
             "HTTP deregistration is only issued for addresses that are not connection-owned; gRPC addresses are written by one connection at a time (keeps the reference model exact)".into(),
@@ -777,6 +809,14 @@ pub fn main(ctx: &Ctx) -> i32 {
     }
     let w3 = work.clone();
     let fail = run_cases(ctx, &stats, (|| case_strategy(true)) as fn() -> _, n_kill, 5, 4, move |c| run_case(c, &w3, seed));
+    if fail.is_some() {
+        std::fs::remove_dir_all(&work).ok();
+        return finish(ctx, &stats, fin(), fail);
+    }
+    // fourth class: abandoned HTTP instances + kill of a node while they are unhealthy but not yet removed
+    let w5 = work.clone();
+    let n_ab = ctx.tier.pick(5u32, 30u32);
+    let fail = run_cases(ctx, &stats, case_strategy_abandon_kill as fn() -> _, n_ab, 5, 4, move |c| run_case(c, &w5, seed));
     if fail.is_some() {
         std::fs::remove_dir_all(&work).ok();
         return finish(ctx, &stats, fin(), fail);
